@@ -8,7 +8,7 @@
 (* is mandatory.  Crash, SanitizerReport and Timeout are observations for   *)
 (* which the trace specification has no action.                             *)
 (***************************************************************************)
-EXTENDS Integers, Sequences, FiniteSets
+EXTENDS Slice
 
 Outcomes == {"ret", "throw"}
 
@@ -26,6 +26,10 @@ MustThrow(entry, p) ==
       [] entry = "irfft" -> p[2] % 2 = 1 \/ (p[1] # p[2] /\ p[1] # p[2] \div 2 + 1)       \* p = <<bins, n>>
       [] entry \in {"idx", "cidx", "idx_arr"} -> p[2] = 1                                    \* p[2] = 1: list holds an entry outside 0..n-1
       [] entry \in {"slice_list", "slice_arr", "slice_scalar_bad"} -> p[1] # p[2]            \* count vs right-hand side length
+      [] entry = "slice_m1" -> Rejects(p[1], p[2], p[3], -1)                                 \* the C04 acceptance rule, p = <<n, i1, i2>>
+      [] entry = "slice_m2" -> Rejects(p[1], p[2], p[3], -2)
+      [] entry = "slice_p1" -> Rejects(p[1], p[2], p[3], 1)
+      [] entry = "slice_p2" -> Rejects(p[1], p[2], p[3], 2)
       [] entry = "zeropad" -> p[2] < p[1]
       [] entry \in {"decim_frame", "rate_frame"} -> p[2] % p[1] # 0                          \* frame not a multiple of M
       [] entry = "detector_frame" -> p[2] = 0                                               \* p[2] = 1: a multiple of frame_len
@@ -41,6 +45,8 @@ MustReturn(entry, p) ==
       [] entry \in {"idx", "cidx", "idx_arr"} -> p[2] = 0 /\ p[3] > 0                      \* in-range, non-empty list
       [] entry \in {"fft", "ifft", "rfft", "fft_n", "rfft_n", "xcorr", "isprime", "factor", "nextprime", "primes"} -> TRUE
       [] entry = "irfft" -> ~MustThrow(entry, p)
+      [] entry \in {"slice_m1", "slice_m2", "slice_p1", "slice_p2"} -> ~MustThrow(entry, p)
+      [] entry = "print" -> TRUE
       [] OTHER -> FALSE
 OutcomeOK(entry, p, o) ==
     /\ o \in Outcomes
